@@ -219,16 +219,17 @@ Qed.
 
 Lemma static_acn_ok c : AcnSpec c (static_acn c).
 Proof.
-  intros ok n w w' Hv TB SI (CS & CT & CH) Ho H.
+  intros ok n w w' Hv TB SI (CS & CT & CH & CU) Ho H.
   destruct (static_acn_name c ok (mlen (w_buf w)) n w w' Hv TB ltac:(lia) Ho) as (n' & Hc & N1 & (sfx & X) & T1 & H1 & E1); auto.
   - intros v Hin _. rewrite Forall_forall in CS. apply (CS v Hin).
   - intros v Hin Hge. destruct TB as (TS & _ & _). rewrite Forall_forall in TS. specialize (TS _ Hin). lia.
   - split.
-    + unfold CInv. rewrite T1, H1, X. split; [|split].
+    + unfold CInv. rewrite T1, H1, X. split; [|split; [|split]].
       * rewrite Forall_forall. intros v Hin. rewrite <- X.
         destruct (E1 _ Hin) as [Hin0|Hok]; [|exact Hok].
         rewrite X. apply StaticOK_app. rewrite Forall_forall in CS. apply (CS v Hin0).
       * eapply Forall_weaken; [|exact CT]. intros [k v] Hs. apply TreeOK_app; exact Hs.
       * eapply Forall_weaken; [|exact CH]. intros [h t] Hs. apply HashOK_app; exact Hs.
+      * apply (HU_transfer (w_buf w) _ ok ok (w_hash w)); [apply incl_refl|exact CH|intros; apply LabelAt_app; auto|exact CU].
     + exists n'. split; [exact Hc|]. apply N1. lia.
 Qed.
